@@ -17,8 +17,9 @@ def art_eq(a,b):
 
 class Agreement(PipelineBase):
     name='C07.threshold_agreement'
-    def __init__(self,nlinks=2,small=False,**kw):
-        PipelineBase.__init__(self,**kw); self.nlinks=nlinks; self.small=small
+    def __init__(self,nlinks=2,small=False,plain=False,**kw):
+        PipelineBase.__init__(self,**kw); self.nlinks=nlinks; self.small=small; self.plain=plain
+        if plain: self.name='C07.threshold_agreement_%dlinks_plain'%nlinks
         if small:
             self.name='C07.threshold_agreement_%dlinks_small'%nlinks
             self.hash_order='fixed'      # insertion order only here (order dependence is C13's subject; 3-4 entry maps under every permutation cost 10^5 paths)
@@ -34,12 +35,12 @@ class Agreement(PipelineBase):
             for p in (('a',) if self.small else ('a','b')):
                 if run.pick(2,'m%d%s'%(i,p)):
                     mats[p]=[z3.BitVec('dm_%d_%s'%(i,p),8)]
-                    if p=='b' and i>=1:      # the digests of b may be recorded under sha256, sha512 or both: the algorithm set is part of what must agree
+                    if p=='b' and i>=1 and not self.plain:      # the digests of b may be recorded under sha256, sha512 or both: the algorithm set is part of what must agree
                         al=run.pick(3,'alg%d'%i)
                         if al: mats[p]={'sha512':[z3.BitVec('dm5_%d_%s'%(i,p),8)]} if al==1 else {'sha256':mats[p],'sha512':[z3.BitVec('dm5_%d_%s'%(i,p),8)]}
             prods={}
             # `a` may be both a material and a product (a file modified in place): the two tables are compared separately
-            for p in (() if self.small else ('a',)):
+            for p in (() if (self.small or self.plain) else ('a',)):
                 if run.pick(2,'p%d%s'%(i,p)): prods[p]=[z3.BitVec('dp_%d_%s'%(i,p),8)]
             if i==0 or self.small: sd=SigD(i,i)       # small universe: every link validly signed (what varies is who dissents)
             else:
